@@ -309,8 +309,11 @@ def _domain_is_target_ancestor(fd, ret, tparam):
                 continue
             vt = norm(v)
             if isinstance(v, ast.BinOp) and isinstance(v.op, ast.BitAnd):
-                sides = [norm(v.left), norm(v.right)]
+                from sa.util import expand_names
                 for side in (v.left, v.right):
+                    st = norm(expand_names(fd, side))
+                    if "_get_ancestors(" in st and tparam in st:
+                        return True, "domain is chosen among the common ancestors of source and target"
                     for nm2 in names_in(side):
                         for a2 in assignments_to(fd, nm2):
                             if "_get_ancestors" in norm(getattr(a2, "value", a2)) and tparam in norm(getattr(a2, "value", a2)):
